@@ -16,12 +16,14 @@ import (
 	"time"
 
 	"github.com/sirupsen/logrus"
+	"github.com/spf13/viper"
 	"google.golang.org/protobuf/proto"
 
 	"github.com/atlassian/gostatsd"
 	"github.com/atlassian/gostatsd/internal/verifhook"
 	"github.com/atlassian/gostatsd/pb"
 	"github.com/atlassian/gostatsd/pkg/statsd"
+	"github.com/atlassian/gostatsd/pkg/transport"
 	"github.com/atlassian/gostatsd/pkg/web"
 )
 
@@ -36,6 +38,7 @@ func (c19) ID() string { return "C19" }
 type evBackend struct {
 	name string
 	gate *Gate
+	http bool // forwarder mode: the "backend" is the upstream server, the gate is the HTTP link to it
 	mu   sync.Mutex
 	got  map[string][]gostatsd.Event // title -> deliveries that completed
 	fail map[string]int              // title -> deliveries aborted by their context
@@ -63,6 +66,26 @@ func (b *evBackend) SendEvent(ctx context.Context, ev *gostatsd.Event) error {
 	return nil
 }
 
+func (b *evBackend) release(p *Parked) {
+	if b.http {
+		b.gate.Release(p, HTTPOutcome{Kind: "serve"})
+	} else {
+		b.gate.Release(p, nil)
+	}
+}
+
+// c19Up is what the upstream server's ingestion router dispatches into (forwarder mode).
+type c19Up struct{ b *evBackend }
+
+func (u c19Up) DispatchMetricMap(ctx context.Context, mm *gostatsd.MetricMap) {}
+func (u c19Up) EstimatedTags() int                                          { return 0 }
+func (u c19Up) WaitForEvents()                                              {}
+func (u c19Up) DispatchEvent(ctx context.Context, ev *gostatsd.Event) {
+	u.b.mu.Lock()
+	u.b.got[ev.Title] = append(u.b.got[ev.Title], copyEvent(ev))
+	u.b.mu.Unlock()
+}
+
 type c19Expect struct {
 	title      string
 	accepted   bool // dispatch into the pipeline has returned
@@ -73,16 +96,34 @@ type c19Expect struct {
 
 func (c19) Run(e *Env) {
 	e.ProbeDecl("event-via-datagram", "event-via-http", "parked-for-lookup", "lookup-success", "lookup-failure", "cache-hit", "two-events-one-parser-first-still-held", "backend-held", "semaphore-full", "wait-for-events-while-held",
-		"no-backends", "escaped-newline", "absent-date", "all-fields", "release-parked-before-hand-over")
+		"no-backends", "escaped-newline", "absent-date", "all-fields", "release-parked-before-hand-over", "forwarder-mode")
 	nBackends := e.Draw(4)
 	maxConc := e.Range(1, 3)
+	// forwarder mode: the pipeline ends in the real HttpForwarderHandlerV2 and the event must arrive
+	// exactly once at the upstream server (its real ingestion router), the link being the gate
+	forwarder := e.Chance(1, 4)
+	if forwarder {
+		nBackends = 1
+	}
 	if nBackends == 0 {
 		e.Probe("no-backends")
 	}
 	var backends []gostatsd.Backend
 	var ebs []*evBackend
+	var upFab *Fabric
 	for i := 0; i < nBackends; i++ {
 		b := &evBackend{name: fmt.Sprintf("b%d", i), gate: NewGate(fmt.Sprintf("ev-b%d", i)), got: map[string][]gostatsd.Event{}, fail: map[string]int{}}
+		if forwarder {
+			upFab = NewFabric()
+			upFab.KeyFn = func(r *HTTPReq) string {
+				var m pb.EventV2
+				if r.Path == "/v2/event" && proto.Unmarshal(r.Body, &m) == nil {
+					return m.Title
+				}
+				return "other"
+			}
+			b.name, b.gate, b.http = "upstream", upFab.Gate, true
+		}
 		ebs = append(ebs, b)
 		backends = append(backends, b)
 	}
@@ -94,7 +135,32 @@ func (c19) Run(e *Env) {
 	bh := statsd.NewBackendHandler(backends, uint(maxConc), 1, 4, statsd.AggregatorFactoryFunc(func() statsd.Aggregator {
 		return statsd.NewMetricAggregator(nil, time.Hour, time.Hour, time.Hour, time.Hour, gostatsd.TimerSubtypes{}, 0)
 	}))
-	th := statsd.NewTagHandler(bh, static, nil)
+	var final gostatsd.PipelineHandler = bh
+	var hfh *statsd.HttpForwarderHandlerV2
+	if forwarder {
+		e.Probe("forwarder-mode")
+		v := viper.New()
+		v.Set("http-transport.api-endpoint", "http://upstream")
+		v.Set("http-transport.compress", false)
+		v.Set("http-transport.max-requests", 4)
+		pool := transport.NewTransportPool(logrus.StandardLogger(), v)
+		cl, err := pool.Get("default")
+		if err != nil {
+			e.Failf("C19/harness", "%v", err)
+		}
+		cl.Client.Transport = upFab
+		hfh, err = statsd.NewHttpForwarderHandlerV2FromViper(logrus.StandardLogger(), v, pool, nil)
+		if err != nil {
+			e.Failf("C19/harness", "%v", err)
+		}
+		upSrv, err := web.NewHttpServer(logrus.StandardLogger(), c19Up{ebs[0]}, "up", "up", false, false, true, false, nil, nil)
+		if err != nil {
+			e.Failf("C19/harness", "%v", err)
+		}
+		upFab.Handle("upstream", upSrv.Router)
+		final = hfh
+	}
+	th := statsd.NewTagHandler(final, static, nil)
 	ch := statsd.NewCloudHandler(cache, th)
 	sock := NewSimSocket()
 	dch := make(chan []*statsd.Datagram)
@@ -113,7 +179,12 @@ func (c19) Run(e *Env) {
 		wg.Add(1)
 		go func() { defer wg.Done(); f(ctx) }()
 	}
-	start(bh.Run)
+	if forwarder {
+		start(hfh.Run)
+		start(hfh.RunMetricsContext)
+	} else {
+		start(bh.Run)
+	}
 	start(ch.Run)
 	for i := 0; i < nParsers; i++ {
 		start(parser.Run)
@@ -127,6 +198,13 @@ func (c19) Run(e *Env) {
 	}()
 	defer cancel()
 	e.Settle()
+	if forwarder {
+		// the forwarder starts with a synchronous empty post; serve it so that it is up
+		for _, p := range upFab.Gate.Parked() {
+			upFab.Gate.Release(p, HTTPOutcome{Kind: "serve"})
+		}
+		e.Settle()
+	}
 	// a third of the runs arm the H1 yield site in the cloud stage: a released event is parked just
 	// before it is handed to the next stage, so that a WaitForEvents call can be made to overlap it
 	yg := &yieldGate{gate: NewGate("yield"), anyObj: true, sites: map[string]bool{}}
@@ -137,7 +215,7 @@ func (c19) Run(e *Env) {
 		defer yg.gate.Open(nil)
 	}
 	sharedSources := nParsers == 1 && e.Bool()
-	e.Event("cfg backends=%d maxconc=%d static=%v parsers=%d sharedSources=%v", nBackends, maxConc, static, nParsers, sharedSources)
+	e.Event("cfg backends=%d maxconc=%d static=%v parsers=%d sharedSources=%v forwarder=%v", nBackends, maxConc, static, nParsers, sharedSources, forwarder)
 
 	instances := []*gostatsd.Instance{{ID: "i-one", Tags: gostatsd.Tags{"inst:1"}}, {ID: "i-notags"}}
 	var exps []*c19Expect
@@ -515,7 +593,7 @@ func (c19) Run(e *Env) {
 			e.Fault("backend-send-stall")
 			for _, b := range ebs {
 				if b.gate.Name == p.Gate {
-					b.gate.Release(p, nil)
+					b.release(p)
 				}
 			}
 			if p.Gate == "yield" {
@@ -556,7 +634,7 @@ func (c19) Run(e *Env) {
 		progressed := false
 		for _, b := range ebs {
 			for _, p := range b.gate.Parked() {
-				b.gate.Release(p, nil)
+				b.release(p)
 				progressed = true
 				e.Settle()
 			}
